@@ -333,6 +333,160 @@ Section BRIDGE.
 End BRIDGE.
 
 (* ====================================================================================== *)
+(* B'. bridge for fingerprintsQuery after fix e2b3950 (absent labels): the matchers that accept   *)
+(*     the empty string are planned as exclusions (fingerprint IN (<rejected>) == 0)       *)
+(* ====================================================================================== *)
+Section ABSENT.
+  Variable re_match re_full : string -> string -> bool.
+
+  Definition pos_ms (ms : list matcher) : list matcher := filter (fun m => negb (accepts_empty re_full m)) ms.
+  Definition neg_ms (ms : list matcher) : list matcher := filter (accepts_empty re_full) ms.
+  Definition neg_clause (m : matcher) : clause := clause_of (prom_matcher (inverse m)).
+  Definition pos_clauses (ms : list matcher) : list clause := map clause_of (map prom_matcher (pos_ms ms)).
+  Definition neg_clauses (ms : list matcher) : list clause := map neg_clause (neg_ms ms).
+
+  Lemma fold_and_where_fields (f : matcher -> expr) neg : forall q l,
+    s_where q = Some (And l) ->
+    s_where (fold_left (fun q m => and_where [f m] q) neg q) = Some (And (l ++ map f neg)) /\
+    s_having (fold_left (fun q m => and_where [f m] q) neg q) = s_having q.
+  Proof.
+    induction neg as [|m neg IH]; intros q l Hw; cbn [fold_left map].
+    - rewrite app_nil_r. split; [exact Hw|reflexivity].
+    - destruct (IH (and_where [f m] q) (l ++ [f m])%list) as [H1 H2].
+      + unfold and_where. rewrite Hw. reflexivity.
+      + rewrite H1, H2. rewrite <- app_assoc. split; reflexivity.
+  Qed.
+
+  Lemma fingerprints_query_fields c ms :
+    s_where (fingerprints_query re_full c ms) =
+      Some (And ([Ge (Id "date") (format_from_date c); get_types c; Or (map sel_clause (map prom_matcher (pos_ms ms)))]
+                 ++ map (not_rejected c) (neg_ms ms))) /\
+    s_having (fingerprints_query re_full c ms) = s_having (stream_select c (map prom_matcher (pos_ms ms))).
+  Proof.
+    unfold fingerprints_query. fold (pos_ms ms). fold (neg_ms ms).
+    apply fold_and_where_fields. apply stream_select_where.
+  Qed.
+
+  Section ROWS.
+  Variable gin : list ginrow.
+  Let nested : select -> option (list N) := fun q' => Some (eval_fpq re_match no_cte q' (map gin_env gin)).
+  Notation ev := (ev re_match nested).
+
+  Lemma ev_date_bound r c :
+    ev (gin_env r) (Ge (Id "date") (format_from_date c)) = Some (b2v (from_day (c_from_ns c) <=? g_date r)%Z).
+  Proof.
+    unfold Ge, format_from_date. cbn.
+    destruct (Z.ltb (g_date r) (from_day (c_from_ns c))) eqn:Hd.
+    - replace (from_day (c_from_ns c) <=? g_date r)%Z with false by (symmetry; apply Z.leb_gt; apply Z.ltb_lt; exact Hd). reflexivity.
+    - replace (from_day (c_from_ns c) <=? g_date r)%Z with true by (symmetry; apply Z.leb_le; apply Z.ltb_ge; exact Hd). reflexivity.
+  Qed.
+  Lemma ev_types r c :
+    ev (gin_env r) (get_types c) = Some (b2v ((g_type r =? sel_type c)%Z || (g_type r =? 0)%Z)).
+  Proof.
+    unfold get_types, sel_type. cbn.
+    destruct (g_type r =? (if c_type c =? 0 then 1 else c_type c))%Z, (g_type r =? 0)%Z; reflexivity.
+  Qed.
+  Lemma ev_not_rejected r c m :
+    ev (gin_env r) (not_rejected c m) =
+    Some (b2v (negb (existsb (N.eqb (g_fp r)) (fp_sel re_match (from_day (c_from_ns c)) (sel_type c) [neg_clause m] gin)))).
+  Proof.
+    unfold not_rejected, Eq. rewrite (ev_LOp re_match nested). cbn [map].
+    assert (Hin : ev (gin_env r) (In (Id "fingerprint") [SubQ (rejected_query c m)]) =
+                  Some (b2v (existsb (N.eqb (g_fp r)) (fp_sel re_match (from_day (c_from_ns c)) (sel_type c) [neg_clause m] gin)))).
+    { cbn [PromSem.ev]. rewrite gin_fp. unfold nested, rejected_query. rewrite eval_fpq_stream_select. rewrite N2Z.id. reflexivity. }
+    rewrite Hin. cbn [PromSem.ev all_some omap lop_apply].
+    destruct (existsb (N.eqb (g_fp r)) (fp_sel re_match (from_day (c_from_ns c)) (sel_type c) [neg_clause m] gin)); reflexivity.
+  Qed.
+
+  Lemma ev_and_all rho es (bs : list bool) :
+    map (ev rho) es = map (fun b => Some (b2v b)) bs -> is_true (ev rho (And es)) = forallb (fun b => b) bs.
+  Proof.
+    intros H. unfold And. rewrite (ev_LOp re_match nested), H, all_some_map_Some. cbn [lop_apply]. rewrite map_map.
+    rewrite (map_ext _ (fun b => Some b)) by (intros; apply truthy_b2v). rewrite all_some_map_Some. cbn [omap].
+    rewrite map_id. apply is_true_b2v.
+  Qed.
+
+  Lemma ev_fingerprints_where r c ms :
+    is_true (ev (gin_env r)
+               (And ([Ge (Id "date") (format_from_date c); get_types c; Or (map sel_clause (map prom_matcher (pos_ms ms)))]
+                     ++ map (not_rejected c) (neg_ms ms)))) =
+    where_ok re_match (from_day (c_from_ns c)) (sel_type c) (pos_clauses ms) r &&
+    negb (rejected re_match (from_day (c_from_ns c)) (sel_type c) (neg_clauses ms) gin (g_fp r)).
+  Proof.
+    rewrite (ev_and_all _ _
+      ([(from_day (c_from_ns c) <=? g_date r)%Z; ((g_type r =? sel_type c)%Z || (g_type r =? 0)%Z);
+        existsb (fun cl => eval_clause re_match cl r) (pos_clauses ms)]
+       ++ map (fun m => negb (existsb (N.eqb (g_fp r)) (fp_sel re_match (from_day (c_from_ns c)) (sel_type c) [neg_clause m] gin)))
+              (neg_ms ms))).
+    - rewrite forallb_app. cbn [forallb]. unfold where_ok. rewrite andb_true_r, !andb_assoc. f_equal.
+      unfold rejected, neg_clauses. generalize (neg_ms ms). intros l.
+      induction l as [|m l IH]; [reflexivity|]. cbn [map forallb existsb]. rewrite IH, negb_orb. reflexivity.
+    - rewrite !map_app. cbn [map]. rewrite ev_date_bound, ev_types.
+      rewrite (ev_or_clauses re_match nested). fold (pos_clauses ms). f_equal.
+      rewrite !map_map. apply map_ext. intros m. apply ev_not_rejected.
+  Qed.
+  End ROWS.
+
+  Lemma filter_andb {A} (f g : A -> bool) l : filter (fun x => f x && g x) l = filter f (filter g l).
+  Proof.
+    induction l as [|x l IH]; [reflexivity|]. cbn [filter].
+    destruct (g x); cbn [filter]; destruct (f x); cbn [andb]; rewrite IH; reflexivity.
+  Qed.
+
+  (* the reference interpreter applied to the statement fingerprintsQuery builds = the list reading fp_sel_abs *)
+  Theorem eval_fp_sel_fingerprints_query c ms gin :
+    eval_fp_sel re_match (fingerprints_query re_full c ms) gin =
+    fp_sel_abs re_match (from_day (c_from_ns c)) (sel_type c) (pos_clauses ms) (neg_clauses ms) gin.
+  Proof.
+    unfold eval_fp_sel, eval_fpq, fp_sel_abs, fp_sel.
+    destruct (fingerprints_query_fields c ms) as [Hw Hh]. rewrite Hw, Hh, stream_select_having.
+    rewrite filter_map_comm.
+    rewrite (filter_ext _ (fun r => where_ok re_match (from_day (c_from_ns c)) (sel_type c) (pos_clauses ms) r &&
+                                    negb (rejected re_match (from_day (c_from_ns c)) (sel_type c) (neg_clauses ms) gin (g_fp r))))
+      by (intros; apply ev_fingerprints_where).
+    rewrite filter_andb.
+    set (gin' := filter (fun r => negb (rejected re_match (from_day (c_from_ns c)) (sel_type c) (neg_clauses ms) gin (g_fp r))) gin).
+    rewrite flat_fp.
+    apply filter_ext. intros fp.
+    rewrite filter_map_comm.
+    rewrite (filter_ext (fun x => opt_eqb_N (env_fp (gin_env x)) fp) (fun r => N.eqb (g_fp r) fp))
+      by (intros; rewrite env_fp_gin; reflexivity).
+    fold (group_of (filter (where_ok re_match (from_day (c_from_ns c)) (sel_type c) (pos_clauses ms)) gin') fp).
+    unfold pos_clauses. apply eva_having.
+  Qed.
+
+  (* which fingerprints that is: every matcher that rejects "" is witnessed by an index row, and no index row
+     carries a value that a matcher accepting "" rejects *)
+  Theorem fp_sel_abs_correct D t pos neg gin fp : pos <> [] -> (List.length pos <= 63)%nat ->
+    List.In fp (fp_sel_abs re_match D t pos neg gin) <->
+    series_matches re_match D t pos gin fp /\
+    ~ (exists n r, List.In n neg /\ List.In r gin /\ g_fp r = fp /\ (D <= g_date r)%Z /\ (g_type r = t \/ g_type r = 0%Z)
+                   /\ eval_clause re_match n r = true).
+  Proof.
+    intros Hne Hlen. unfold fp_sel_abs. rewrite fp_sel_correct by assumption.
+    assert (Hrej : rejected re_match D t neg gin fp = true <->
+                   exists n r, List.In n neg /\ List.In r gin /\ g_fp r = fp /\ (D <= g_date r)%Z /\ (g_type r = t \/ g_type r = 0%Z)
+                               /\ eval_clause re_match n r = true).
+    { unfold rejected. rewrite existsb_exists. split.
+      - intros [n [Hn Hex]]. apply existsb_exists in Hex. destruct Hex as [y [Hy He]]. apply N.eqb_eq in He. subst y.
+        apply fp_sel_correct in Hy; [|discriminate|cbn; lia].
+        destruct (Hy n (or_introl eq_refl)) as [r Hr]. exists n, r. tauto.
+      - intros [n [r [Hn [Hr [Hfp [Hd [Ht Hev]]]]]]]. exists n. split; [assumption|]. apply existsb_exists. exists fp.
+        split; [|now apply N.eqb_eq]. apply fp_sel_correct; [discriminate|cbn; lia|].
+        intros c' [<-|[]]. exists r. tauto. }
+    unfold series_matches. split.
+    - intros H. split.
+      + intros c Hc. destruct (H c Hc) as [r [Hr Hrest]]. apply filter_In in Hr. exists r. tauto.
+      + intros Hex. apply Hrej in Hex.
+        destruct pos as [|c0 pos']; [congruence|]. destruct (H c0 (or_introl eq_refl)) as [r [Hr [Hfp _]]].
+        apply filter_In in Hr. destruct Hr as [_ Hr]. rewrite Hfp, Hex in Hr. discriminate.
+    - intros [H Hno] c Hc. destruct (H c Hc) as [r [Hr [Hfp Hrest]]]. exists r. split; [|tauto].
+      apply filter_In. split; [assumption|]. rewrite Hfp.
+      destruct (rejected re_match D t neg gin fp) eqn:E; [|reflexivity]. exfalso. apply Hno. now apply Hrej.
+  Qed.
+End ABSENT.
+
+(* ====================================================================================== *)
 (* C. the index query against the Prometheus meaning of the matchers                       *)
 (* ====================================================================================== *)
 
@@ -351,12 +505,6 @@ Section EXACT.
     fp_functional : forall s1 s2, List.In s1 series -> List.In s2 series -> t_fp s1 = t_fp s2 -> t_labels s1 = t_labels s2;
     keys_unique : forall s, List.In s series -> NoDup (map fst (t_labels s))
   }.
-
-  (* a matcher is faithfully answered by the index when it rejects the empty string, or when no
-     stored series lacks its label *)
-  Definition matcher_guard (series : list tsrow) (m : matcher) : Prop :=
-    prom_match_val re_full (m_op m) (m_val m) "" = false \/
-    (forall s, List.In s series -> has_label (t_labels s) (m_name m) = true).
 
   Lemma label_value_in l k v : NoDup (map fst l) -> List.In (k, v) l -> label_value l k = v.
   Proof.
@@ -395,54 +543,107 @@ Section EXACT.
   Lemma key_prom m : c_key (clause_of (prom_matcher m)) = m_name m.
   Proof. unfold clause_of, prom_matcher. destruct (m_op m); reflexivity. Qed.
 
+  Lemma vcond_inverse m v :
+    eval_vcond re_match (c_cond (neg_clause m)) v = negb (prom_match_val re_full (m_op m) (m_val m) v).
+  Proof.
+    unfold neg_clause, clause_of, prom_matcher, inverse.
+    destruct (m_op m) eqn:Hop; cbn [m_op m_val c_cond eval_vcond prom_match_val].
+    - reflexivity.
+    - now rewrite negb_involutive.
+    - rewrite anchor_law. destruct (re_full v (m_val m)); reflexivity.
+    - rewrite anchor_law. destruct (re_full v (m_val m)); reflexivity.
+  Qed.
+  Lemma key_inverse m : c_key (neg_clause m) = m_name m.
+  Proof. unfold neg_clause, clause_of, prom_matcher, inverse. destruct (m_op m); reflexivity. Qed.
+
+  Lemma filter_len {A} (f : A -> bool) l : (List.length (filter f l) <= List.length l)%nat.
+  Proof. induction l as [|x l IH]; [apply le_n|]. cbn [filter]. destruct (f x); cbn [List.length]; lia. Qed.
+
+  Lemma selective_pos ms : selective re_full ms = true -> pos_ms re_full ms <> [].
+  Proof.
+    unfold selective, pos_ms. intros H. apply existsb_exists in H. destruct H as [m [Hm Hr]].
+    intros E. assert (Hin : List.In m (filter (fun m => negb (accepts_empty re_full m)) ms)) by (apply filter_In; split; assumption).
+    rewrite E in Hin. contradiction.
+  Qed.
+
+  (* the fingerprints the repaired fingerprintsQuery selects = the stored metric series whose labels satisfy
+     every matcher in the Prometheus sense (an absent label reads as the empty string) *)
   Theorem prom_fp_select D gin series ms fp :
-    db_ok D gin series -> ms <> [] -> (List.length ms <= 63)%nat ->
-    (forall m, List.In m ms -> matcher_guard series m) ->
-    (List.In fp (fp_sel re_match D 2 (map clause_of (map prom_matcher ms)) gin) <->
+    db_ok D gin series -> selective re_full ms = true -> (List.length ms <= 63)%nat ->
+    (List.In fp (fp_sel_abs re_match D 2 (pos_clauses re_full ms) (neg_clauses re_full ms) gin) <->
      List.In fp (expected_fps re_full D ms series)).
   Proof.
-    intros Hdb Hne Hlen Hguard.
-    rewrite fp_sel_correct; [| destruct ms; [congruence|discriminate] | now rewrite !map_length].
+    intros Hdb Hsel Hlen.
+    assert (Hpne : pos_clauses re_full ms <> []).
+    { unfold pos_clauses. intros E. apply map_eq_nil in E. apply map_eq_nil in E. now apply (selective_pos ms Hsel). }
+    assert (Hplen : (List.length (pos_clauses re_full ms) <= 63)%nat).
+    { unfold pos_clauses, pos_ms. rewrite !map_length. pose proof (filter_len (fun m => negb (accepts_empty re_full m)) ms). lia. }
+    rewrite fp_sel_abs_correct by assumption.
     unfold expected_fps. rewrite nodup_In, in_map_iff. split.
-    - intros Hsm.
-      destruct ms as [|m0 ms']; [congruence|].
-      assert (H0 := Hsm (clause_of (prom_matcher m0)) (or_introl eq_refl)).
-      destruct H0 as [r0 [Hr0 [Hfp0 [Hd0 [Ht0 _]]]]].
+    - intros [Hsm Hno].
+      destruct (pos_clauses re_full ms) as [|c0 cs'] eqn:Epos; [congruence|].
+      destruct (Hsm c0 (or_introl eq_refl)) as [r0 [Hr0 [Hfp0 [Hd0 [Ht0 _]]]]].
       destruct (index_sound _ _ _ Hdb r0 Hr0 Hd0 Ht0) as [s0 [Hs0 [Hsfp [Hsd [Hst _]]]]].
       exists s0. split; [congruence|]. apply filter_In. split; [assumption|].
       apply andb_true_intro. split.
       + unfold metric_series. apply andb_true_intro. split; [now apply Z.leb_le|].
         apply orb_true_intro. destruct Hst as [Hst|Hst]; [left|right]; now apply Z.eqb_eq.
       + unfold prom_matches. apply forallb_forall. intros m Hm.
-        assert (Hc : List.In (clause_of (prom_matcher m)) (map clause_of (map prom_matcher (m0 :: ms')))).
-        { apply in_map. now apply in_map. }
-        destruct (Hsm _ Hc) as [r [Hr [Hfp [Hd [Ht Hev]]]]].
-        destruct (index_sound _ _ _ Hdb r Hr Hd Ht) as [s [Hs [Hsfp' [_ [_ Hlab]]]]].
-        assert (Hl : t_labels s = t_labels s0) by (apply (fp_functional _ _ _ Hdb); congruence).
-        rewrite Hl in Hlab.
-        unfold eval_clause in Hev. apply andb_prop in Hev. destruct Hev as [Hk Hv].
-        rewrite key_prom in Hk. apply String.eqb_eq in Hk. rewrite Hk in Hlab.
-        rewrite (label_value_in _ _ _ (keys_unique _ _ _ Hdb s0 Hs0) Hlab).
-        rewrite <- vcond_prom. exact Hv.
+        destruct (accepts_empty re_full m) eqn:Hacc.
+        * (* the matcher accepts "": no index row of the series may carry a rejected value *)
+          destruct (has_label (t_labels s0) (m_name m)) eqn:Hh.
+          -- destruct (prom_match_val re_full (m_op m) (m_val m) (label_value (t_labels s0) (m_name m))) eqn:Hv; [reflexivity|].
+             exfalso. apply Hno. apply has_label_in in Hh.
+             destruct (index_complete _ _ _ Hdb s0 Hs0 Hsd Hst _ _ Hh) as [r [Hr [Hrfp [Hk [Hval [Hrd Hrt]]]]]].
+             exists (neg_clause m), r. split.
+             { unfold neg_clauses, neg_ms. apply in_map. apply filter_In. split; assumption. }
+             split; [assumption|]. split; [congruence|]. split; [assumption|]. split; [assumption|].
+             unfold eval_clause. apply andb_true_intro. split.
+             ++ rewrite key_inverse, Hk. apply String.eqb_refl.
+             ++ rewrite vcond_inverse, Hval, Hv. reflexivity.
+          -- rewrite (no_label_value _ _ Hh). exact Hacc.
+        * assert (Hc : List.In (clause_of (prom_matcher m)) (c0 :: cs')).
+          { rewrite <- Epos. unfold pos_clauses, pos_ms. apply in_map. apply in_map. apply filter_In. split; [assumption|].
+            now rewrite Hacc. }
+          destruct (Hsm _ Hc) as [r [Hr [Hfp [Hd [Ht Hev]]]]].
+          destruct (index_sound _ _ _ Hdb r Hr Hd Ht) as [s [Hs [Hsfp' [_ [_ Hlab]]]]].
+          assert (Hl : t_labels s = t_labels s0) by (apply (fp_functional _ _ _ Hdb); congruence).
+          rewrite Hl in Hlab.
+          unfold eval_clause in Hev. apply andb_prop in Hev. destruct Hev as [Hk Hv].
+          rewrite key_prom in Hk. apply String.eqb_eq in Hk. rewrite Hk in Hlab.
+          rewrite (label_value_in _ _ _ (keys_unique _ _ _ Hdb s0 Hs0) Hlab).
+          rewrite <- vcond_prom. exact Hv.
     - intros [s [Hfp Hs]]. apply filter_In in Hs. destruct Hs as [Hs Hok].
       apply andb_prop in Hok. destruct Hok as [Hmet Hpm].
       unfold metric_series in Hmet. apply andb_prop in Hmet. destruct Hmet as [Hd Ht].
       apply Z.leb_le in Hd.
       assert (Ht' : (t_type s = 2 \/ t_type s = 0)%Z).
       { apply orb_prop in Ht. destruct Ht as [Ht|Ht]; apply Z.eqb_eq in Ht; auto. }
-      intros c Hc. apply in_map_iff in Hc. destruct Hc as [m' [Hc Hm']].
-      apply in_map_iff in Hm'. destruct Hm' as [m [Hm' Hm]]. subst m' c.
-      unfold prom_matches in Hpm. rewrite forallb_forall in Hpm. specialize (Hpm m Hm).
-      assert (Hhas : has_label (t_labels s) (m_name m) = true).
-      { destruct (Hguard m Hm) as [Hrej|Hall]; [|now apply Hall].
-        destruct (has_label (t_labels s) (m_name m)) eqn:Hh; [reflexivity|].
-        rewrite (no_label_value _ _ Hh) in Hpm. congruence. }
-      apply has_label_in in Hhas.
-      destruct (index_complete _ _ _ Hdb s Hs Hd Ht' _ _ Hhas) as [r [Hr [Hrfp [Hk [Hv [Hrd Hrt]]]]]].
-      exists r. split; [assumption|]. split; [congruence|]. split; [assumption|]. split; [assumption|].
-      unfold eval_clause. apply andb_true_intro. split.
-      + rewrite key_prom, Hk. apply String.eqb_refl.
-      + rewrite vcond_prom, Hv. exact Hpm.
+      unfold prom_matches in Hpm. rewrite forallb_forall in Hpm.
+      split.
+      + intros c Hc. unfold pos_clauses, pos_ms in Hc. apply in_map_iff in Hc. destruct Hc as [m' [Hc Hm']].
+        apply in_map_iff in Hm'. destruct Hm' as [m [Hm' Hm]]. subst m' c.
+        apply filter_In in Hm. destruct Hm as [Hm Hrej]. apply negb_true_iff in Hrej.
+        specialize (Hpm m Hm).
+        assert (Hhas : has_label (t_labels s) (m_name m) = true).
+        { destruct (has_label (t_labels s) (m_name m)) eqn:Hh; [reflexivity|].
+          rewrite (no_label_value _ _ Hh) in Hpm. unfold accepts_empty in Hrej. congruence. }
+        apply has_label_in in Hhas.
+        destruct (index_complete _ _ _ Hdb s Hs Hd Ht' _ _ Hhas) as [r [Hr [Hrfp [Hk [Hv [Hrd Hrt]]]]]].
+        exists r. split; [assumption|]. split; [congruence|]. split; [assumption|]. split; [assumption|].
+        unfold eval_clause. apply andb_true_intro. split.
+        * rewrite key_prom, Hk. apply String.eqb_refl.
+        * rewrite vcond_prom, Hv. exact Hpm.
+      + intros [n [r [Hn [Hr [Hrfp [Hrd [Hrt Hev]]]]]]].
+        unfold neg_clauses, neg_ms in Hn. apply in_map_iff in Hn. destruct Hn as [m [<- Hm]].
+        apply filter_In in Hm. destruct Hm as [Hm _]. specialize (Hpm m Hm).
+        destruct (index_sound _ _ _ Hdb r Hr Hrd Hrt) as [s' [Hs' [Hsfp' [_ [_ Hlab]]]]].
+        assert (Hl : t_labels s' = t_labels s) by (apply (fp_functional _ _ _ Hdb); congruence).
+        rewrite Hl in Hlab.
+        unfold eval_clause in Hev. apply andb_prop in Hev. destruct Hev as [Hk Hv].
+        rewrite key_inverse in Hk. apply String.eqb_eq in Hk. rewrite Hk in Hlab.
+        rewrite (label_value_in _ _ _ (keys_unique _ _ _ Hdb s Hs) Hlab) in Hpm.
+        rewrite vcond_inverse, Hpm in Hv. discriminate.
   Qed.
 End EXACT.
 
@@ -451,14 +652,15 @@ End EXACT.
 (* ====================================================================================== *)
 
 Section MAINQ.
-  Variable re_match : string -> string -> bool.
+  Variable re_match re_full : string -> string -> bool.
+  Notation fingerprints_query := (fingerprints_query re_full).
 
   Definition raw_query (c : pctx) (ms : list matcher) : select :=
     and_where [In (Id "samples.fingerprint") [WRef "fp_sel" (fingerprints_query c ms)]]
       (add_withs [("fp_sel", fingerprints_query c ms)] (init_clickhouse c)).
 
   Definition raw_where (c : pctx) (ms : list matcher) : expr :=
-    And [Gt (Id "samples.timestamp_ns") (IntV (c_from_ns c)); Le (Id "samples.timestamp_ns") (IntV (c_to_ns c));
+    And [Ge (Id "samples.timestamp_ns") (IntV (c_from_ns c)); Lt (Id "samples.timestamp_ns") (IntV (c_to_ns c + 1000000));
          get_types c; In (Id "samples.fingerprint") [WRef "fp_sel" (fingerprints_query c ms)]].
   Definition raw_cols : list expr :=
     [SimpleCol "samples.fingerprint" "fingerprint"; SimpleCol "samples.value" "value"; ts_ms_col].
@@ -475,10 +677,10 @@ Section MAINQ.
 
   Definition the_cte (db : database) : select -> option (list N) := fun fq => Some (eval_fp_sel re_match fq (d_gin db)).
   Definition the_fps (c : pctx) (ms : list matcher) (db : database) : list N :=
-    fp_sel re_match (from_day (c_from_ns c)) (sel_type c) (map clause_of (map prom_matcher ms)) (d_gin db).
+    fp_sel_abs re_match (from_day (c_from_ns c)) (sel_type c) (pos_clauses re_full ms) (neg_clauses re_full ms) (d_gin db).
 
   Lemma the_cte_fpq c ms db : the_cte db (fingerprints_query c ms) = Some (the_fps c ms db).
-  Proof. unfold the_cte, eval_fp_sel, fingerprints_query, the_fps. now rewrite eval_fpq_stream_select. Qed.
+  Proof. unfold the_cte, the_fps. now rewrite eval_fp_sel_fingerprints_query. Qed.
 
   Notation aenv db r := (alias_env re_match (the_cte db) raw_cols (sample_base_env r)).
 
@@ -498,13 +700,13 @@ Section MAINQ.
                  Some (b2v (existsb (N.eqb (sm_fp r)) (the_fps c ms db)))).
     { cbn [PromSem.ev]. rewrite aenv_sfp, the_cte_fpq, N2Z.id. reflexivity. }
     rewrite H4.
-    unfold Gt, Le, get_types, sample_ok, sel_type.
-    cbn - [existsb the_fps].
-    destruct (c_from_ns c <? sm_ts_ns r)%Z; cbn - [existsb the_fps]; [|reflexivity].
-    destruct (Z.ltb (c_to_ns c) (sm_ts_ns r)) eqn:Hu.
-    - replace (sm_ts_ns r <=? c_to_ns c)%Z with false by (symmetry; apply Z.leb_gt; apply Z.ltb_lt; exact Hu). reflexivity.
-    - replace (sm_ts_ns r <=? c_to_ns c)%Z with true by (symmetry; apply Z.leb_le; apply Z.ltb_ge; exact Hu).
-      cbn - [existsb the_fps].
+    unfold Ge, Lt, get_types, sample_ok, sel_type.
+    cbn - [existsb the_fps Z.add].
+    destruct (Z.ltb (sm_ts_ns r) (c_from_ns c)) eqn:Hl.
+    - replace (c_from_ns c <=? sm_ts_ns r)%Z with false by (symmetry; apply Z.leb_gt; apply Z.ltb_lt; exact Hl). reflexivity.
+    - replace (c_from_ns c <=? sm_ts_ns r)%Z with true by (symmetry; apply Z.leb_le; apply Z.ltb_ge; exact Hl).
+      cbn - [existsb the_fps Z.add].
+      destruct (sm_ts_ns r <? c_to_ns c + 1000000)%Z; cbn - [existsb the_fps Z.add]; [|reflexivity].
       destruct (sm_type r =? (if c_type c =? 0 then 1 else c_type c))%Z, (sm_type r =? 0)%Z; cbn - [existsb the_fps];
         destruct (existsb (N.eqb (sm_fp r)) (the_fps c ms db)); reflexivity.
   Qed.
@@ -874,27 +1076,48 @@ Section COMPOSE.
 
   (* what ClickHouse answers (under the reference reading) to the statement Select sends *)
   Definition prom_query_rows (cluster : bool) (dbname : string) (h : hints) (ms : list matcher) (db : database) : option (list row) :=
-    eval_prom re_match (fst (querier_transpile cluster dbname h ms)) db.
+    eval_prom re_match (fst (querier_transpile re_full cluster dbname h ms)) db.
+
+  (* the nanosecond bounds of the statement are the millisecond range [Start, End] *)
+  Lemma window_ns_ms (a e t : Z) :
+    ((a * 1000000 <=? t) && (t <? e * 1000000 + 1000000))%Z = ((a <=? t / 1000000) && (t / 1000000 <=? e))%Z.
+  Proof.
+    assert (Hk : (0 < 1000000)%Z) by lia.
+    pose proof (Z.mul_div_le t 1000000 Hk) as H1. pose proof (Z.mul_succ_div_gt t 1000000 Hk) as H2.
+    remember (t / 1000000)%Z as q eqn:Eq. clear Eq.
+    assert (E1 : (a * 1000000 <=? t)%Z = (a <=? q)%Z).
+    { destruct (Z.leb_spec (a * 1000000) t), (Z.leb_spec a q); try reflexivity; lia. }
+    assert (E2 : (t <? e * 1000000 + 1000000)%Z = (q <=? e)%Z).
+    { destruct (Z.ltb_spec t (e * 1000000 + 1000000)), (Z.leb_spec q e); try reflexivity; lia. }
+    now rewrite E1, E2.
+  Qed.
+
+  Lemma expected_rows_raw h ms db :
+    expected_rows re_full h ms db =
+    raw_rows (h_start h * 1000000) (h_end h * 1000000) 2 (expected_fps re_full (from_day (h_start h * 1000000)) ms (d_series db)) (d_samples db).
+  Proof.
+    unfold expected_rows, raw_rows. do 2 f_equal. apply filter_ext. intros s.
+    unfold sample_ok, in_range_ms, metric_sample. now rewrite window_ns_ms.
+  Qed.
 
   Hypothesis anchor_law : forall v p, re_match v (anchor p) = re_full v p.
 
   Theorem prom_rows_exact cluster dbname h ms db :
     use_raw_data h = true -> h_step h = 0%Z ->
     db_ok (from_day (h_start h * 1000000)) (d_gin db) (d_series db) ->
-    ms <> [] -> (List.length ms <= 63)%nat ->
-    (forall m, List.In m ms -> matcher_guard re_full (d_series db) m) ->
+    selective re_full ms = true -> (List.length ms <= 63)%nat ->
     prom_query_rows cluster dbname h ms db = Some (expected_rows re_full h ms db).
   Proof.
-    intros Hraw Hstep Hdb Hne Hlen Hg.
+    intros Hraw Hstep Hdb Hne Hlen.
     unfold prom_query_rows, querier_transpile. rewrite Hraw. cbn [fst].
     unfold transpile_label_matchers. rewrite Hstep. cbn [Z.eqb].
-    fold (raw_query (prom_ctx cluster dbname h) ms).
+    fold (raw_query re_full (prom_ctx cluster dbname h) ms).
     destruct (prom_ctx_fields cluster dbname h) as [Hf [Ht [Hl Hty]]].
     unfold eval_prom.
-    destruct (raw_query_fields (prom_ctx cluster dbname h) ms ltac:(lia)) as [_ [_ [_ [Hgb _]]]]. rewrite Hgb.
+    destruct (raw_query_fields re_full (prom_ctx cluster dbname h) ms ltac:(lia)) as [_ [_ [_ [Hgb _]]]]. rewrite Hgb.
     rewrite eval_main_raw by lia. f_equal.
-    unfold expected_rows, the_fps, sel_type. rewrite Hf, Ht, Hty. cbn [Z.eqb].
-    apply raw_rows_ext. intros fp. now apply prom_fp_select.
+    rewrite expected_rows_raw. unfold the_fps, sel_type. rewrite Hf, Ht, Hty. cbn [Z.eqb].
+    apply raw_rows_ext. intros fp. now apply (prom_fp_select re_match re_full anchor_law).
   Qed.
 End COMPOSE.
 
@@ -905,9 +1128,11 @@ End COMPOSE.
 Section SELECTED.
   Variable re_match re_full : string -> string -> bool.
 
-  (* the stored samples of fingerprint fp inside the window (from, to], of metric type *)
-  Definition window_ok (h : hints) (s : samplerow) : bool :=
-    (h_start h * 1000000 <? sm_ts_ns s)%Z && (sm_ts_ns s <=? h_end h * 1000000)%Z && ((sm_type s =? 2)%Z || (sm_type s =? 0)%Z).
+  (* the stored samples inside the requested range [Start, End] (milliseconds, both ends included), of metric type *)
+  Definition window_ok (h : hints) (s : samplerow) : bool := in_range_ms h s && metric_sample s.
+  Lemma window_ok_ns h s fps :
+    sample_ok (h_start h * 1000000) (h_end h * 1000000) 2 fps s = window_ok h s && existsb (N.eqb (sm_fp s)) fps.
+  Proof. unfold sample_ok, window_ok, in_range_ms, metric_sample. now rewrite window_ns_ms. Qed.
 
   Lemma raw_rows_fps f t ty fps samples fp :
     List.In fp (map r_fp (raw_rows f t ty fps samples)) <->
@@ -924,10 +1149,9 @@ Section SELECTED.
   Theorem prom_select_series_exact cluster dbname h ms db :
     use_raw_data h = true -> h_step h = 0%Z ->
     db_ok (from_day (h_start h * 1000000)) (d_gin db) (d_series db) ->
-    ms <> [] -> (List.length ms <= 63)%nat ->
-    (forall m, List.In m ms -> matcher_guard re_full (d_series db) m) ->
-    exists rows, prom_query_rows re_match cluster dbname h ms db = Some rows /\
-      let ss := select_loop (snd (querier_transpile cluster dbname h ms)) rows in
+    selective re_full ms = true -> (List.length ms <= 63)%nat ->
+    exists rows, prom_query_rows re_match re_full cluster dbname h ms db = Some rows /\
+      let ss := select_loop (snd (querier_transpile re_full cluster dbname h ms)) rows in
       NoDup (map ps_fp ss) /\
       (forall fp, List.In fp (map ps_fp ss) <->
                   List.In fp (expected_fps re_full (from_day (h_start h * 1000000)) ms (d_series db)) /\
@@ -939,18 +1163,18 @@ Section SELECTED.
             exists sm, List.In sm (d_samples db) /\ window_ok h sm = true /\ sm_fp sm = ps_fp s /\
                        x = (Z.quot (sm_ts_ns sm) 1000000, sm_value sm))).
   Proof.
-    intros Hraw Hstep Hdb Hne Hlen Hg.
+    intros Hraw Hstep Hdb Hne Hlen.
     exists (expected_rows re_full h ms db). split; [now apply prom_rows_exact|].
     unfold querier_transpile. rewrite Hraw. cbn [snd].
     set (fps := expected_fps re_full (from_day (h_start h * 1000000)) ms (d_series db)).
-    unfold expected_rows. fold fps. unfold raw_rows.
+    rewrite expected_rows_raw. fold fps. unfold raw_rows.
     set (kept := isort PromSem.sample_lt (filter (sample_ok (h_start h * 1000000) (h_end h * 1000000) 2 fps) (d_samples db))).
     assert (Hsorted : StronglySorted sle kept) by apply isort_sorted.
     destruct (select_loop_spec false (map to_row kept) (sorted_contiguous kept Hsorted)) as [Hnd [Hfps Hsmp]].
     split; [assumption|]. split.
     - intros fp. rewrite <- Hfps.
       change (map to_row kept) with (raw_rows (h_start h * 1000000) (h_end h * 1000000) 2 fps (d_samples db)).
-      rewrite raw_rows_fps. unfold sample_ok, window_ok. split.
+      rewrite raw_rows_fps. setoid_rewrite window_ok_ns. split.
       + intros [s [Hs [Hok Hfp]]]. apply andb_prop in Hok. destruct Hok as [Hw Hex].
         split; [|exists s; tauto]. apply existsb_exists in Hex. destruct Hex as [y [Hy He]]. apply N.eqb_eq in He. congruence.
       + intros [Hin [s [Hs [Hw Hfp]]]]. exists s. split; [assumption|]. split; [|assumption].
@@ -958,14 +1182,14 @@ Section SELECTED.
     - intros s Hs. split; [now apply Hsmp|]. rewrite (Hsmp s Hs). split; [now apply sorted_fp_ascending|].
       intros x. unfold rows_of. rewrite filter_map_comm, map_map. cbn [to_row r_fp r_ts r_val]. rewrite in_map_iff. split.
       + intros [sm [Hx Hsm]]. apply filter_In in Hsm. destruct Hsm as [Hsm Hfp]. apply isort_in in Hsm. apply filter_In in Hsm.
-        destruct Hsm as [Hsm Hok]. unfold sample_ok in Hok. apply andb_prop in Hok. destruct Hok as [Hw _].
+        destruct Hsm as [Hsm Hok]. rewrite window_ok_ns in Hok. apply andb_prop in Hok. destruct Hok as [Hw _].
         exists sm. split; [assumption|]. split; [exact Hw|]. split; [now apply N.eqb_eq|now symmetry].
       + intros [sm [Hsm [Hw [Hfp ->]]]]. exists sm. split; [reflexivity|]. apply filter_In. split; [|now apply N.eqb_eq].
-        apply isort_in. apply filter_In. split; [assumption|]. unfold sample_ok. unfold window_ok in Hw. rewrite Hw. cbn [andb].
+        apply isort_in. apply filter_In. split; [assumption|]. rewrite window_ok_ns, Hw. cbn [andb].
         apply existsb_exists. exists (ps_fp s). split; [|now apply N.eqb_eq].
         assert (Hin : List.In (ps_fp s) (map ps_fp (select_loop false (map to_row kept)))) by now apply in_map.
         apply Hfps in Hin. change (map to_row kept) with (raw_rows (h_start h * 1000000) (h_end h * 1000000) 2 fps (d_samples db)) in Hin.
-        apply raw_rows_fps in Hin. destruct Hin as [s' [_ [Hok' Hfp']]]. unfold sample_ok in Hok'. apply andb_prop in Hok'.
+        apply raw_rows_fps in Hin. destruct Hin as [s' [_ [Hok' Hfp']]]. rewrite window_ok_ns in Hok'. apply andb_prop in Hok'.
         destruct Hok' as [_ Hex]. apply existsb_exists in Hex. destruct Hex as [y [Hy He]]. apply N.eqb_eq in He. congruence.
   Qed.
 End SELECTED.
@@ -1016,8 +1240,10 @@ Proof.
   - intros s Hs. cbn in Hs. destruct Hs as [<-|[<-|[]]]; cbn; repeat constructor; cbn; intuition discriminate.
 Qed.
 
-(* Prometheus selects both series (series 31 has no env label: "" != "prod"); the statement selects one *)
-Lemma w_rows : prom_query_rows re_lit false "qryn" w_hints w_ms w_db = Some [{| r_fp := 32; r_val := 2; r_ts := 1700000001000 |}].
+(* Prometheus selects both series (series 31 has no env label: "" != "prod"); so does the statement since the
+   fix e2b3950 (before it, only series 32 was selected: the former theorem prom_select_exact_refuted) *)
+Lemma w_rows : prom_query_rows re_lit re_lit false "qryn" w_hints w_ms w_db =
+  Some [{| r_fp := 31; r_val := 1; r_ts := 1700000001000 |}; {| r_fp := 32; r_val := 2; r_ts := 1700000001000 |}].
 Proof. vm_compute. reflexivity. Qed.
 Lemma w_expected : expected_rows re_lit w_hints w_ms w_db =
   [{| r_fp := 31; r_val := 1; r_ts := 1700000001000 |}; {| r_fp := 32; r_val := 2; r_ts := 1700000001000 |}].
@@ -1033,19 +1259,20 @@ Definition n_db : database :=
      d_series := n_series |}.
 Definition n_ms : list matcher := map (fun kv => {| m_name := fst kv; m_op := MEq; m_val := snd kv |}) nine.
 (* (before fix 052673d the ninth bit was shifted out of UInt8 and nothing was selected) *)
-Lemma n_rows : prom_query_rows re_lit false "qryn" w_hints n_ms n_db = Some [{| r_fp := 41; r_val := 1; r_ts := 1700000001000 |}].
+Lemma n_rows : prom_query_rows re_lit re_lit false "qryn" w_hints n_ms n_db = Some [{| r_fp := 41; r_val := 1; r_ts := 1700000001000 |}].
 Proof. vm_compute. reflexivity. Qed.
 Lemma n_expected : expected_rows re_lit w_hints n_ms n_db = [{| r_fp := 41; r_val := 1; r_ts := 1700000001000 |}].
 Proof. vm_compute. reflexivity. Qed.
 
-(* ---- the refutations for every oracle pair that obeys the anchoring law (the witnesses hold no regex matcher) ---- *)
+(* ---- the same for an oracle pair that trivially obeys the anchoring law (the witnesses hold no regex matcher) ---- *)
 Definition re_none (h p : string) : bool := false.
-Lemma w_rows_none : prom_query_rows re_none false "qryn" w_hints w_ms w_db = Some [{| r_fp := 32; r_val := 2; r_ts := 1700000001000 |}].
+Lemma w_rows_none : prom_query_rows re_none re_none false "qryn" w_hints w_ms w_db =
+  Some [{| r_fp := 31; r_val := 1; r_ts := 1700000001000 |}; {| r_fp := 32; r_val := 2; r_ts := 1700000001000 |}].
 Proof. vm_compute. reflexivity. Qed.
 Lemma w_expected_none : expected_rows re_none w_hints w_ms w_db =
   [{| r_fp := 31; r_val := 1; r_ts := 1700000001000 |}; {| r_fp := 32; r_val := 2; r_ts := 1700000001000 |}].
 Proof. vm_compute. reflexivity. Qed.
-Lemma n_rows_none : prom_query_rows re_none false "qryn" w_hints n_ms n_db = Some [{| r_fp := 41; r_val := 1; r_ts := 1700000001000 |}].
+Lemma n_rows_none : prom_query_rows re_none re_none false "qryn" w_hints n_ms n_db = Some [{| r_fp := 41; r_val := 1; r_ts := 1700000001000 |}].
 Proof. vm_compute. reflexivity. Qed.
 Lemma n_expected_none : expected_rows re_none w_hints n_ms n_db = [{| r_fp := 41; r_val := 1; r_ts := 1700000001000 |}].
 Proof. vm_compute. reflexivity. Qed.
@@ -1056,18 +1283,37 @@ Proof.
   - intros s Hs. cbn in Hs. destruct Hs as [<-|[]]. cbn. repeat constructor; cbn; intuition discriminate.
 Qed.
 
-(* non-vacuity of the partial theorem: matchers that reject the empty string, on the same database *)
+(* non-vacuity of the exactness theorem, on the matcher set that used to refute it: {__name__="up", env!="prod"}
+   over a series without an env label *)
 Definition g_ms : list matcher := [{| m_name := "__name__"; m_op := MEq; m_val := "up" |}; {| m_name := "env"; m_op := MEq; m_val := "dev" |}].
-Example partial_hypotheses_met :
+Example exact_hypotheses_met :
   use_raw_data w_hints = true /\ h_step w_hints = 0%Z /\
-  db_ok (from_day (h_start w_hints * 1000000)) (d_gin w_db) (d_series w_db) /\ g_ms <> [] /\ (List.length g_ms <= 63)%nat /\
-  (forall m, List.In m g_ms -> matcher_guard re_none (d_series w_db) m) /\
-  prom_query_rows re_none false "qryn" w_hints g_ms w_db = Some [{| r_fp := 32; r_val := 2; r_ts := 1700000001000 |}].
+  db_ok (from_day (h_start w_hints * 1000000)) (d_gin w_db) (d_series w_db) /\
+  selective re_none w_ms = true /\ (List.length w_ms <= 63)%nat /\
+  accepts_empty re_none {| m_name := "env"; m_op := MNeq; m_val := "prod" |} = true /\
+  expected_rows re_none w_hints w_ms w_db =
+    [{| r_fp := 31; r_val := 1; r_ts := 1700000001000 |}; {| r_fp := 32; r_val := 2; r_ts := 1700000001000 |}] /\
+  prom_query_rows re_none re_none false "qryn" w_hints g_ms w_db = Some [{| r_fp := 32; r_val := 2; r_ts := 1700000001000 |}].
 Proof.
-  split; [reflexivity|]. split; [reflexivity|]. split; [exact w_db_ok|]. split; [discriminate|]. split; [cbn; lia|].
-  split; [|vm_compute; reflexivity].
-  intros m [<-|[<-|[]]]; left; reflexivity.
+  split; [reflexivity|]. split; [reflexivity|]. split; [exact w_db_ok|]. split; [reflexivity|]. split; [cbn; lia|].
+  split; [reflexivity|]. split; [exact w_expected_none|]. vm_compute. reflexivity.
 Qed.
+
+(* the requested range is closed in milliseconds: a sample exactly at Start and one within the last millisecond of
+   End are handed out (before fix f155c1f the statement said timestamp_ns > Start and <= End in nanoseconds) *)
+Definition b_db : database :=
+  {| d_gin := gin_of w_series;
+     d_samples := [{| sm_fp := 32; sm_type := 2; sm_ts_ns := 1700000000000000000; sm_value := 7 |};
+                   {| sm_fp := 32; sm_type := 2; sm_ts_ns := 1700003600000999999; sm_value := 8 |};
+                   {| sm_fp := 32; sm_type := 2; sm_ts_ns := 1699999999999999999; sm_value := 5 |};
+                   {| sm_fp := 32; sm_type := 2; sm_ts_ns := 1700003600001000000; sm_value := 9 |}];
+     d_series := w_series |}.
+Example window_bounds_included :
+  prom_query_rows re_none re_none false "qryn" w_hints g_ms b_db =
+    Some [{| r_fp := 32; r_val := 7; r_ts := 1700000000000 |}; {| r_fp := 32; r_val := 8; r_ts := 1700003600000 |}] /\
+  expected_rows re_none w_hints g_ms b_db =
+    [{| r_fp := 32; r_val := 7; r_ts := 1700000000000 |}; {| r_fp := 32; r_val := 8; r_ts := 1700003600000 |}].
+Proof. split; vm_compute; reflexivity. Qed.
 Example contiguous_example :
   contiguousb [{| r_fp := 3; r_val := 1; r_ts := 10 |}; {| r_fp := 3; r_val := 4; r_ts := 20 |}; {| r_fp := 7; r_val := 2; r_ts := 5 |}] = true.
 Proof. reflexivity. Qed.
@@ -1649,8 +1895,8 @@ Section FINAL.
   Definition day_to (h : hints) : Z := (h_end h / 86400000)%Z.
   (* what CLokiQuerier.Select returns, the two statements being answered by the reference interpreter *)
   Definition prom_select (cluster : bool) (dbname : string) (h : hints) (ms : list matcher) (db : database) : option (list out_series) :=
-    match prom_query_rows re_match cluster dbname h ms db with
-    | Some rows => Some (select_series (snd (querier_transpile cluster dbname h ms)) rows
+    match prom_query_rows re_match re_full cluster dbname h ms db with
+    | Some rows => Some (select_series (snd (querier_transpile re_full cluster dbname h ms)) rows
                            (fetch_rows (day_from h) (day_to h) (fps_of rows) (d_series db)))
     | None => None
     end.
@@ -1658,15 +1904,14 @@ Section FINAL.
   Theorem prom_select_exact_series cluster dbname h ms db :
     use_raw_data h = true -> h_step h = 0%Z ->
     db_ok (day_from h) (d_gin db) (d_series db) ->
-    ms <> [] -> (List.length ms <= 63)%nat ->
-    (forall m, List.In m ms -> matcher_guard re_full (d_series db) m) ->
+    selective re_full ms = true -> (List.length ms <= 63)%nat ->
     (* a sample inside the window belongs to a series announced between the two date bounds of the labels request *)
     (forall sm, List.In sm (d_samples db) -> window_ok h sm = true ->
        exists s, List.In s (d_series db) /\ t_fp s = sm_fp sm /\ (day_from h <= t_date s)%Z /\ (t_date s <= day_to h)%Z) ->
     (* distinct stored series print distinct label strings *)
     (forall s1 s2, List.In s1 (d_series db) -> List.In s2 (d_series db) ->
        label_str (sort_labels (sort_labels (t_labels s1))) = label_str (sort_labels (sort_labels (t_labels s2))) -> t_fp s1 = t_fp s2) ->
-    exists rows out, prom_query_rows re_match cluster dbname h ms db = Some rows /\
+    exists rows out, prom_query_rows re_match re_full cluster dbname h ms db = Some rows /\
       prom_select cluster dbname h ms db = Some out /\
       NoDup (map o_fp out) /\
       (forall fp, List.In fp (map o_fp out) <->
@@ -1678,11 +1923,11 @@ Section FINAL.
          o_samples o = rows_of (o_fp o) rows /\
          StronglySorted Z.le (map fst (o_samples o))).
   Proof.
-    intros Hraw Hstep Hdb Hne Hlen Hg Hrows Hdist.
-    destruct (prom_select_series_exact re_match re_full anchor_law cluster dbname h ms db Hraw Hstep Hdb Hne Hlen Hg)
+    intros Hraw Hstep Hdb Hne Hlen Hrows Hdist.
+    destruct (prom_select_series_exact re_match re_full anchor_law cluster dbname h ms db Hraw Hstep Hdb Hne Hlen)
       as [rows [Hq [Hnd [Hfps Hss]]]].
     unfold prom_select. rewrite Hq.
-    set (mr := snd (querier_transpile cluster dbname h ms)) in *.
+    set (mr := snd (querier_transpile re_full cluster dbname h ms)) in *.
     set (ss := select_loop mr rows) in *.
     set (fetch := fetch_rows (day_from h) (day_to h) (fps_of rows) (d_series db)).
     set (getl := labels_get fetch).
@@ -1738,9 +1983,13 @@ Section FINAL.
 End FINAL.
 
 Example final_select_nonvacuous :
-  prom_select re_none false "qryn" w_hints g_ms w_db =
-  Some [{| o_labels := [("__name__", "up"); ("env", "dev")]; o_fp := 32; o_samples := [(1700000001000, 2)] |}].
-Proof. vm_compute. reflexivity. Qed.
+  prom_select re_none re_none false "qryn" w_hints g_ms w_db =
+  Some [{| o_labels := [("__name__", "up"); ("env", "dev")]; o_fp := 32; o_samples := [(1700000001000, 2)] |}] /\
+  (* {__name__="up", env!="prod"}: the series without an env label comes first (fewer labels after __name__ ... by name) *)
+  prom_select re_none re_none false "qryn" w_hints w_ms w_db =
+  Some [{| o_labels := [("__name__", "up"); ("env", "dev")]; o_fp := 32; o_samples := [(1700000001000, 2)] |};
+        {| o_labels := [("__name__", "up"); ("instance", "h:9090")]; o_fp := 31; o_samples := [(1700000001000, 1)] |}].
+Proof. split; vm_compute; reflexivity. Qed.
 Example final_hypotheses_met :
   (forall sm, List.In sm (d_samples w_db) -> window_ok w_hints sm = true ->
      exists s, List.In s (d_series w_db) /\ t_fp s = sm_fp sm /\ (day_from w_hints <= t_date s)%Z /\ (t_date s <= day_to w_hints)%Z) /\
